@@ -2,7 +2,7 @@
 # usage: eval_all_official.sh C01 C02 ...  — official procedure, sequential, on /repo itself
 for p in "$@"; do
   for n in 1 2; do
-    d=/tmp/seed-$p/SEED$n
+    d=${SEED_PREFIX:-/tmp/seed-}$p/SEED$n
     [ -f $d/patch.diff ] || continue
     [ -s $d/result.json ] && continue
     python3 /verif/tools/eval_seed.py $d --props $p 2>&1 | tail -3
